@@ -1,11 +1,17 @@
 //! C14 correspondence harness: SubstateDatabaseOverlay over InMemorySubstateDatabase.
-//! A base database is built by commits; an owned overlay over it receives a random commit history
-//! interleaved with reads, cursor listings and (sometimes) commit_overlay_into_root_store.
+//! A scenario = commits that build the base database, then steps on an owned overlay over it
+//! (commit / get / list from a cursor / commit_overlay_into_root_store + dump).  The run starts with a
+//! deterministic boundary family (identical for every seed): for three base shapes, every sequence
+//! of one or two partition updates from a menu that covers each (staged, incoming) case of
+//! merge_database_updates, each branch of the overlay read paths and of OverlayingIterator, with
+//! reads at every key and listings from every cursor (keys, deleted keys, neighbours, None), then
+//! hand-written multi-node / multi-partition shapes; random histories follow.
 //! Every observation is written for the Coq model (coq/Model/C14_Overlay.v, coq/Corr/C14_run.v).
 //! Direct oracle: the same reads on (a) a second real InMemorySubstateDatabase that received the
 //! same commits directly (the property's own statement) and (b) a plain BTreeMap replay.
 #[path = "../store_gen.rs"]
 mod store_gen;
+use radix_common::prelude::{DatabaseUpdate, IndexMap};
 use radix_substate_store_impls::memory_db::InMemorySubstateDatabase;
 use radix_substate_store_impls::substate_database_overlay::*;
 use radix_substate_store_interface::interface::*;
@@ -13,189 +19,369 @@ use serde_json::json;
 use store_gen::*;
 use vh_common::*;
 
+#[derive(Clone, Debug)]
+enum Step {
+    Commit(DatabaseUpdates),
+    Get(DbPartitionKey, Vec<u8>),
+    List(DbPartitionKey, Option<Vec<u8>>),
+    ReadAll,
+    Merge,
+}
+struct Scenario {
+    u: Universe,
+    base: Vec<DatabaseUpdates>,
+    steps: Vec<Step>,
+    classes: Vec<String>,
+}
+
+// ---- building blocks for the deterministic family ----------------------------------------------
+fn k(i: u8) -> Vec<u8> {
+    vec![i]
+}
+fn delta(es: &[(Vec<u8>, Option<Vec<u8>>)]) -> PartitionDatabaseUpdates {
+    let mut m = IndexMap::new();
+    for (key, v) in es {
+        m.insert(DbSortKey(key.clone()), match v { Some(v) => DatabaseUpdate::Set(v.clone()), None => DatabaseUpdate::Delete });
+    }
+    PartitionDatabaseUpdates::Delta { substate_updates: m }
+}
+fn reset(es: &[(Vec<u8>, Vec<u8>)]) -> PartitionDatabaseUpdates {
+    let mut m = IndexMap::new();
+    for (key, v) in es {
+        m.insert(DbSortKey(key.clone()), v.clone());
+    }
+    PartitionDatabaseUpdates::Reset { new_substate_values: m }
+}
+fn commit_of(parts: Vec<(Vec<u8>, u8, PartitionDatabaseUpdates)>) -> DatabaseUpdates {
+    let mut du = DatabaseUpdates::default();
+    for (nk, pn, pu) in parts {
+        du.node_updates.entry(nk).or_default().partition_updates.insert(pn, pu);
+    }
+    du
+}
+
+/// menu of partition updates on the partition ([1], 0) whose base content is one of the base shapes
+fn menu() -> Vec<(&'static str, PartitionDatabaseUpdates)> {
+    vec![
+        ("Dset_present", delta(&[(k(2), Some(vec![22]))])),
+        ("Ddel_present", delta(&[(k(2), None)])),
+        ("Dset_absent_middle", delta(&[(k(3), Some(vec![33]))])),
+        ("Ddel_absent", delta(&[(k(3), None)])),
+        ("Dset_before_first_after_last", delta(&[(k(1), Some(vec![11])), (k(5), Some(vec![55]))])),
+        ("Ddel_all_consecutive", delta(&[(k(2), None), (k(3), None), (k(4), None)])),
+        ("Dmixed", delta(&[(k(4), None), (k(2), Some(vec![])), (vec![2, 0], Some(vec![20]))])),
+        ("Dempty", delta(&[])),
+        ("Rempty", reset(&[])),
+        ("Rsame_key", reset(&[(k(2), vec![202])])),
+        ("Rnew_key", reset(&[(k(3), vec![203])])),
+        ("Router_keys", reset(&[(k(5), vec![205]), (k(1), vec![201])])),
+    ]
+}
+fn bases() -> Vec<(&'static str, Vec<DatabaseUpdates>)> {
+    vec![
+        ("base_empty", vec![]),
+        ("base_two", vec![commit_of(vec![(vec![1], 0, delta(&[(k(2), Some(vec![2])), (k(4), Some(vec![4]))])), (vec![1], 1, delta(&[(k(2), Some(vec![9]))]))])]),
+        ("base_single", vec![commit_of(vec![(vec![1], 0, delta(&[(k(3), Some(vec![3]))]))])]),
+    ]
+}
+fn family_universe() -> Universe {
+    Universe {
+        node_keys: vec![vec![1], vec![1, 0]],
+        parts: vec![0, 1],
+        sort_keys: vec![vec![], k(1), k(2), vec![2, 0], k(3), k(4), k(5)],
+    }
+}
+fn kind(name: &str) -> char {
+    name.chars().next().unwrap()
+}
+
+fn boundary_family() -> Vec<Scenario> {
+    let mut v = Vec::new();
+    let menu = menu();
+    let mut idx = 0usize;
+    for (bname, base) in bases() {
+        // single update
+        for (n1, u1) in &menu {
+            v.push(Scenario {
+                u: family_universe(),
+                base: base.clone(),
+                steps: vec![Step::Commit(commit_of(vec![(vec![1], 0, u1.clone())])), Step::ReadAll, Step::Merge, Step::ReadAll],
+                classes: vec![format!("bf_{}", bname), format!("bf_seq1_{}", n1), "bf_merge_after_reads".into()],
+            });
+        }
+        // every ordered pair: (staged kind, incoming kind) = DD, DR, RD, RR
+        for (n1, u1) in &menu {
+            for (n2, u2) in &menu {
+                idx += 1;
+                let mut steps = vec![
+                    Step::Commit(commit_of(vec![(vec![1], 0, u1.clone())])),
+                    Step::Commit(commit_of(vec![(vec![1], 0, u2.clone())])),
+                    Step::ReadAll,
+                ];
+                let mut classes = vec![
+                    format!("bf_{}", bname),
+                    format!("bf_seq2_{}{}", kind(n1), kind(n2)),
+                    format!("bf_first_{}", n1),
+                    format!("bf_second_{}", n2),
+                ];
+                if idx % 3 == 0 {
+                    steps.push(Step::Merge);
+                    steps.push(Step::ReadAll);
+                    classes.push("bf_merge_after_reads".into());
+                }
+                v.push(Scenario { u: family_universe(), base: base.clone(), steps, classes });
+            }
+        }
+    }
+    // hand-written shapes at the node / partition level of merge_database_updates and of the read paths
+    let two = bases()[1].1.clone();
+    let shapes: Vec<(&str, Vec<Step>)> = vec![
+        // node absent in the overlay, commit brings two partitions at once (NodeDatabaseUpdates.into())
+        ("bf_node_new_two_partitions", vec![
+            Step::Commit(commit_of(vec![(vec![1], 1, reset(&[(k(7), vec![7])])), (vec![1], 0, delta(&[(k(2), None)]))])),
+            Step::ReadAll]),
+        // node present, partition new; then the other partition again
+        ("bf_node_present_partition_new", vec![
+            Step::Commit(commit_of(vec![(vec![1], 0, delta(&[(k(3), Some(vec![3]))]))])),
+            Step::Commit(commit_of(vec![(vec![1], 1, delta(&[(k(2), None)]))])),
+            Step::ReadAll,
+            Step::Commit(commit_of(vec![(vec![1], 0, reset(&[]))])),
+            Step::ReadAll, Step::Merge, Step::ReadAll]),
+        // two nodes in one commit, one of them a prefix of the other; second node not in the base
+        ("bf_two_nodes_prefix_related", vec![
+            Step::Commit(commit_of(vec![(vec![1, 0], 0, delta(&[(k(2), Some(vec![1]))])), (vec![1], 0, delta(&[(k(2), Some(vec![2]))]))])),
+            Step::ReadAll,
+            Step::Commit(commit_of(vec![(vec![1, 0], 0, delta(&[(k(2), None)]))])),
+            Step::ReadAll, Step::Merge, Step::ReadAll]),
+        // write-then-remove of a pre-existing key, then write again (three deltas)
+        ("bf_set_delete_set_preexisting", vec![
+            Step::Commit(commit_of(vec![(vec![1], 0, delta(&[(k(2), Some(vec![1]))]))])),
+            Step::Commit(commit_of(vec![(vec![1], 0, delta(&[(k(2), None)]))])),
+            Step::ReadAll,
+            Step::Commit(commit_of(vec![(vec![1], 0, delta(&[(k(2), Some(vec![3]))]))])),
+            Step::ReadAll]),
+        // reset, delta on the reset (set, overwrite, delete present, delete absent), reset again, delta
+        ("bf_reset_delta_reset_delta", vec![
+            Step::Commit(commit_of(vec![(vec![1], 0, reset(&[(k(1), vec![1]), (k(3), vec![3])]))])),
+            Step::Commit(commit_of(vec![(vec![1], 0, delta(&[(k(3), None), (k(4), None), (k(1), Some(vec![9])), (k(5), Some(vec![5]))]))])),
+            Step::ReadAll,
+            Step::Commit(commit_of(vec![(vec![1], 0, reset(&[]))])),
+            Step::Commit(commit_of(vec![(vec![1], 0, delta(&[(k(2), Some(vec![8]))]))])),
+            Step::ReadAll, Step::Merge, Step::ReadAll]),
+        // merge of an empty overlay, and merge twice
+        ("bf_merge_empty_overlay", vec![Step::Merge, Step::ReadAll, Step::Merge, Step::ReadAll]),
+        // merge in the middle, then deltas on top of the merged root
+        ("bf_merge_then_continue", vec![
+            Step::Commit(commit_of(vec![(vec![1], 0, delta(&[(k(2), None), (k(3), Some(vec![3]))]))])),
+            Step::Merge,
+            Step::Commit(commit_of(vec![(vec![1], 0, delta(&[(k(3), None), (k(4), None)]))])),
+            Step::ReadAll, Step::Merge, Step::ReadAll]),
+        // delta that deletes everything of a partition and sets nothing; partition disappears on merge
+        ("bf_delete_whole_partition_by_delta", vec![
+            Step::Commit(commit_of(vec![(vec![1], 1, delta(&[(k(2), None)])), (vec![1], 0, delta(&[(k(2), None), (k(4), None)]))])),
+            Step::ReadAll, Step::Merge, Step::ReadAll]),
+    ];
+    for (name, steps) in shapes {
+        v.push(Scenario { u: family_universe(), base: two.clone(), steps, classes: vec![name.to_string()] });
+    }
+    v
+}
+
+fn random_scenario(rng: &mut Rng, i: usize) -> Scenario {
+    let u = Universe::small(rng);
+    let reset_pct = *rng.pick(&[10u64, 30, 50]);
+    let nbase = rng.range(0, 4);
+    let base: Vec<DatabaseUpdates> = (0..nbase).map(|_| gen_commit(rng, &u, 20)).collect();
+    let pks = u.partition_keys();
+    let cursors = u.cursors();
+    let ncommits = if i % 8 == 0 { rng.range(1, 2) } else { rng.range(2, 10) };
+    let merge_mid = if rng.chance(1, 4) { Some(rng.range(1, ncommits)) } else { None };
+    let mut steps = Vec::new();
+    for ci in 0..ncommits {
+        steps.push(Step::Commit(gen_commit(rng, &u, reset_pct)));
+        for _ in 0..rng.range(1, 4) {
+            let pk = rng.pick(&pks).clone();
+            steps.push(Step::Get(pk.clone(), rng.pick(&u.sort_keys).clone()));
+            steps.push(Step::List(pk, rng.pick(&cursors).clone()));
+        }
+        if merge_mid == Some(ci + 1) {
+            steps.push(Step::Merge);
+        }
+    }
+    steps.push(Step::ReadAll);
+    if rng.bool() {
+        steps.push(Step::Merge);
+        for pk in &pks {
+            steps.push(Step::List(pk.clone(), rng.pick(&cursors).clone()));
+        }
+    }
+    Scenario { u, base, steps, classes: vec![] }
+}
+
+type Dump = Vec<(DbPartitionKey, Vec<(Vec<u8>, Vec<u8>)>)>;
+type Failed = Option<(String, serde_json::Value)>;
+
 fn main() {
     let args = Args::parse();
     let mut report = Report::new(
         "C14",
         args.seed,
-        "random base (0..4 commits) and overlay commit histories (1..10 commits of deltas/resets over a small key universe with prefix-related keys), \
-         reads at random keys and listings from random cursors after every commit, all keys x all cursors (keys, neighbours, None) at the end, \
-         optional merge into the root in the middle and at the end; non-trivial = the history has a reset and a delta on an already staged partition; \
-         distinct by canonical text of base + history",
+        "deterministic boundary family (3 base shapes x every single and every ordered pair of 12 partition updates: deltas setting/deleting present, absent, first, last, all keys, empty delta, \
+         resets empty/same/new/outer keys; hand-written node/partition-level merge shapes, set-delete-set, reset-delta-reset-delta, merges of empty overlays and mid-history) with reads at all keys and \
+         listings from all cursors; then random bases (0..4 commits) and overlay histories (1..10 commits) over a small key universe with prefix-related keys; \
+         non-trivial = the history has a reset and a delta on an already staged partition; distinct by canonical text of base + history",
     );
     let mut cw = CaseWriter::new("RV.Lib.Bytes RV.Model.C14_Store RV.Model.C14_Overlay RV.Corr.C14_run", "check");
     let root = Rng::new(args.seed);
-    for i in 0..args.cases {
-        let mut rng = root.fork(i as u64);
-        let u = Universe::small(&mut rng);
-        let reset_pct = *rng.pick(&[10u64, 30, 50]);
-        // ---- base ----
-        let nbase = rng.range(0, 4);
+    let mut scenarios = boundary_family();
+    let n_family = scenarios.len();
+    for j in 0..args.cases {
+        let mut rng = root.fork(j as u64);
+        scenarios.push(random_scenario(&mut rng, j));
+    }
+    for (i, sc) in scenarios.into_iter().enumerate() {
+        for c in &sc.classes {
+            report.count(c);
+        }
+        let u = &sc.u;
         let mut base = InMemorySubstateDatabase::standard();
         let mut direct = InMemorySubstateDatabase::standard();
         let mut replay = Replay::default();
-        let mut base_commits = Vec::new();
-        for _ in 0..nbase {
-            let c = gen_commit(&mut rng, &u, 20);
-            base.commit(&c);
-            direct.commit(&c);
-            replay.commit(&c);
-            base_commits.push(c);
+        for c in &sc.base {
+            base.commit(c);
+            direct.commit(c);
+            replay.commit(c);
         }
         let mut overlay = SubstateDatabaseOverlay::new_owned(base);
-        // ---- history ----
         let pks = u.partition_keys();
         let cursors = u.cursors();
-        let ncommits = if i % 8 == 0 { rng.range(1, 2) } else { rng.range(2, 10) };
         let mut ops: Vec<String> = Vec::new();
         let mut canon = String::new();
-        for c in &base_commits {
+        for c in &sc.base {
             canon.push_str(&updates_coq(c));
         }
         canon.push('|');
-        let mut failed: Option<(String, serde_json::Value)> = None;
+        let mut failed: Failed = None;
         let mut staged: std::collections::BTreeSet<(Vec<u8>, u8)> = Default::default();
         let mut saw_reset = false;
         let mut saw_delta_on_staged = false;
         let mut n_reads = 0u64;
         let mut n_lists_nonempty = 0u64;
-        let read = |overlay: &OwnedSubstateDatabaseOverlay<InMemorySubstateDatabase>,
-                        direct: &InMemorySubstateDatabase,
-                        replay: &Replay,
-                        ops: &mut Vec<String>,
-                        pk: &DbPartitionKey,
-                        sk: Option<&Vec<u8>>,
-                        cur: Option<&Option<Vec<u8>>>,
-                        failed: &mut Option<(String, serde_json::Value)>| {
-            if let Some(sk) = sk {
-                let got = overlay.get_raw_substate_by_db_key(pk, &DbSortKey(sk.clone()));
-                let want = direct.get_raw_substate_by_db_key(pk, &DbSortKey(sk.clone()));
-                let want2 = replay.get(pk, sk);
-                if (got != want || got != want2) && failed.is_none() {
-                    *failed = Some(("get through the overlay differs from the database with the commits applied".into(),
-                        json!({"pk": pk_coq(pk), "sk": hex(sk), "overlay": got.as_ref().map(|v| hex(v)), "direct": want.as_ref().map(|v| hex(v)), "replay": want2.as_ref().map(|v| hex(v))})));
-                }
-                ops.push(format!("OGet {} {} {}", pk_coq(pk), cb(sk), coq_option(got.map(|v| cb(&v)))));
-            }
-            if let Some(cur) = cur {
-                let got = collect_list(overlay, pk, cur);
-                let want = collect_list(direct, pk, cur);
-                let want2 = replay.list(pk, cur);
-                if (got != want || got != want2) && failed.is_none() {
-                    *failed = Some(("listing through the overlay differs from the database with the commits applied".into(),
-                        json!({"pk": pk_coq(pk), "from": cur.as_ref().map(|k| hex(k)), "overlay": entries_coq(&got), "direct": entries_coq(&want), "replay": entries_coq(&want2)})));
-                }
-                ops.push(format!("OList {} {} {}", pk_coq(pk), cursor_coq(cur), entries_coq(&got)));
-                return !got.is_empty();
-            }
-            false
-        };
-        let merge_mid = if rng.chance(1, 4) { Some(rng.range(1, ncommits)) } else { None };
-        for ci in 0..ncommits {
-            let c = gen_commit(&mut rng, &u, reset_pct);
-            // statistics: resets, and deltas hitting partitions already staged
-            for (nk, nu) in &c.node_updates {
-                for (pn, pu) in &nu.partition_updates {
-                    let key = (nk.clone(), *pn);
-                    match pu {
-                        PartitionDatabaseUpdates::Reset { .. } => saw_reset = true,
-                        PartitionDatabaseUpdates::Delta { .. } => {
-                            if staged.contains(&key) {
-                                saw_delta_on_staged = true;
+        for step in &sc.steps {
+            match step {
+                Step::Commit(c) => {
+                    for (nk, nu) in &c.node_updates {
+                        for (pn, pu) in &nu.partition_updates {
+                            let key = (nk.clone(), *pn);
+                            match pu {
+                                PartitionDatabaseUpdates::Reset { .. } => saw_reset = true,
+                                PartitionDatabaseUpdates::Delta { .. } => {
+                                    if staged.contains(&key) {
+                                        saw_delta_on_staged = true;
+                                    }
+                                }
                             }
+                            staged.insert(key);
                         }
                     }
-                    staged.insert(key);
+                    let st = stats(c);
+                    report.count_n("partition_deltas", st.deltas);
+                    report.count_n("partition_resets", st.resets);
+                    report.count_n("empty_resets", st.empty_resets);
+                    report.count_n("substate_deletes", st.deletes);
+                    overlay.commit(c);
+                    direct.commit(c);
+                    replay.commit(c);
+                    ops.push(format!("OCommit {}", updates_coq(c)));
+                    canon.push_str(&updates_coq(c));
+                }
+                Step::Get(pk, sk) => {
+                    read_get(&overlay, &direct, &replay, &mut ops, pk, sk, &mut failed);
+                    n_reads += 1;
+                }
+                Step::List(pk, cur) => {
+                    if read_list(&overlay, &direct, &replay, &mut ops, pk, cur, &mut failed) {
+                        n_lists_nonempty += 1;
+                    }
+                    n_reads += 1;
+                }
+                Step::ReadAll => {
+                    for pk in &pks {
+                        for sk in &u.sort_keys {
+                            read_get(&overlay, &direct, &replay, &mut ops, pk, sk, &mut failed);
+                            n_reads += 1;
+                        }
+                        for cur in &cursors {
+                            if read_list(&overlay, &direct, &replay, &mut ops, pk, cur, &mut failed) {
+                                n_lists_nonempty += 1;
+                            }
+                            n_reads += 1;
+                        }
+                    }
+                    // informational (outside the property statement): the overlay's list_partition_keys also
+                    // yields staged partitions that hold no substate once the commits are applied
+                    let mut a: Vec<DbPartitionKey> = overlay.list_partition_keys().collect();
+                    a.sort();
+                    a.dedup();
+                    let b: Vec<DbPartitionKey> = direct.list_partition_keys().collect();
+                    report.count(if a == b { "info_overlay_partition_key_set_equal" } else { "info_overlay_partition_key_set_has_empty_staged_partitions" });
+                }
+                Step::Merge => {
+                    overlay.commit_overlay_into_root_store();
+                    staged.clear();
+                    let dump = dump_root(&overlay);
+                    check_dump(&dump, &direct, &replay, &mut failed);
+                    ops.push(format!("OMerge {}", dump_coq(&dump)));
+                    canon.push_str("|M|");
+                    report.count("merges");
                 }
             }
-            let st = stats(&c);
-            report.count_n("partition_deltas", st.deltas);
-            report.count_n("partition_resets", st.resets);
-            report.count_n("empty_resets", st.empty_resets);
-            report.count_n("substate_deletes", st.deletes);
-            overlay.commit(&c);
-            direct.commit(&c);
-            replay.commit(&c);
-            ops.push(format!("OCommit {}", updates_coq(&c)));
-            canon.push_str(&updates_coq(&c));
-            // a few random reads after each commit
-            for _ in 0..rng.range(1, 4) {
-                let pk = rng.pick(&pks).clone();
-                let sk = rng.pick(&u.sort_keys).clone();
-                read(&overlay, &direct, &replay, &mut ops, &pk, Some(&sk), None, &mut failed);
-                n_reads += 1;
-                let cur = rng.pick(&cursors).clone();
-                if read(&overlay, &direct, &replay, &mut ops, &pk, None, Some(&cur), &mut failed) {
-                    n_lists_nonempty += 1;
-                }
-                n_reads += 1;
-            }
-            if merge_mid == Some(ci + 1) {
-                overlay.commit_overlay_into_root_store();
-                staged.clear();
-                let dump = dump_root(&overlay);
-                check_dump(&dump, &direct, &replay, &mut failed);
-                ops.push(format!("OMerge {}", dump_coq(&dump)));
-                canon.push_str("|M|");
-                report.count("merges");
-            }
         }
-        // exhaustive reads at the end
-        for pk in &pks {
-            for sk in &u.sort_keys {
-                read(&overlay, &direct, &replay, &mut ops, pk, Some(sk), None, &mut failed);
-                n_reads += 1;
-            }
-            for cur in &cursors {
-                if read(&overlay, &direct, &replay, &mut ops, pk, None, Some(cur), &mut failed) {
-                    n_lists_nonempty += 1;
-                }
-                n_reads += 1;
-            }
-        }
-        // informational (outside the property statement): the overlay's list_partition_keys also
-        // yields staged partitions that hold no substate once the commits are applied
-        {
-            let mut a: Vec<DbPartitionKey> = overlay.list_partition_keys().collect();
-            a.sort();
-            a.dedup();
-            let b: Vec<DbPartitionKey> = direct.list_partition_keys().collect();
-            report.count(if a == b { "info_overlay_partition_key_set_equal" } else { "info_overlay_partition_key_set_has_empty_staged_partitions" });
-        }
-        // merge into the root at the end (half of the cases), then dump and re-read
-        if rng.bool() {
-            overlay.commit_overlay_into_root_store();
-            let dump = dump_root(&overlay);
-            check_dump(&dump, &direct, &replay, &mut failed);
-            ops.push(format!("OMerge {}", dump_coq(&dump)));
-            report.count("merges");
-            for pk in &pks {
-                let cur = rng.pick(&cursors).clone();
-                read(&overlay, &direct, &replay, &mut ops, pk, None, Some(&cur), &mut failed);
-            }
-            let (root_db, left) = overlay.deconstruct();
-            if (root_db != direct || !left.node_updates.is_empty()) && failed.is_none() {
+        let (root_db, left) = overlay.deconstruct();
+        if matches!(sc.steps.last(), Some(Step::Merge)) || staged.is_empty() {
+            // nothing staged any more: the root itself must be the base with the commits applied
+            if left.node_updates.is_empty() && root_db != direct && failed.is_none() {
                 failed = Some(("merging the overlay into the base does not yield the base with the commits applied".into(), json!({})));
             }
         }
         report.count_n("reads", n_reads);
         report.count_n("nonempty_listings", n_lists_nonempty);
-        if saw_reset {
-            report.count("histories_with_reset");
-        }
-        if saw_delta_on_staged {
-            report.count("histories_with_delta_on_staged_partition");
+        if i >= n_family {
+            report.count("random_histories");
+            if saw_reset {
+                report.count("histories_with_reset");
+            }
+            if saw_delta_on_staged {
+                report.count("histories_with_delta_on_staged_partition");
+            }
         }
         report.case(&canon, saw_reset && saw_delta_on_staged);
         if let Some((what, mut input)) = failed {
-            input["base_commits"] = json!(base_commits.iter().map(updates_coq).collect::<Vec<_>>());
+            input["base_commits"] = json!(sc.base.iter().map(updates_coq).collect::<Vec<_>>());
             input["ops"] = json!(ops.iter().filter(|o| o.starts_with("OCommit") || o.starts_with("OMerge")).collect::<Vec<_>>());
+            input["classes"] = json!(sc.classes);
             report.oracle_failure(i, "", &what, input);
         }
-        if i < 2 {
-            report.sample(json!({"base_commits": base_commits.iter().map(updates_coq).collect::<Vec<_>>(), "first_ops": ops.iter().take(12).collect::<Vec<_>>()}));
+        if i == 0 || i == n_family {
+            report.sample(json!({"base_commits": sc.base.iter().map(updates_coq).collect::<Vec<_>>(), "first_ops": ops.iter().take(12).collect::<Vec<_>>()}));
         }
-        cw.push(format!("({}, {})", coq_list(base_commits.iter().map(updates_coq)), coq_list(ops.into_iter())));
+        cw.push(format!("({}, {})", coq_list(sc.base.iter().map(updates_coq)), coq_list(ops.into_iter())));
+    }
+    // floors: every class of the deterministic family
+    for b in ["bf_base_empty", "bf_base_two", "bf_base_single"] {
+        report.floor(b, 100);
+    }
+    for (n, _) in menu() {
+        report.floor(&format!("bf_seq1_{}", n), 3);
+        report.floor(&format!("bf_first_{}", n), 36);
+        report.floor(&format!("bf_second_{}", n), 36);
+    }
+    for p in ["DD", "DR", "RD", "RR"] {
+        report.floor(&format!("bf_seq2_{}", p), 48);
+    }
+    for c in ["bf_merge_after_reads", "bf_node_new_two_partitions", "bf_node_present_partition_new", "bf_two_nodes_prefix_related", "bf_set_delete_set_preexisting",
+              "bf_reset_delta_reset_delta", "bf_merge_empty_overlay", "bf_merge_then_continue", "bf_delete_whole_partition_by_delta"] {
+        report.floor(c, 1);
     }
     let n = args.cases as u64;
     report.floor("partition_resets", n);
@@ -210,10 +396,32 @@ fn main() {
     report.write(&args.out).unwrap();
 }
 
-type Dump = Vec<(DbPartitionKey, Vec<(Vec<u8>, Vec<u8>)>)>;
+type Ov = OwnedSubstateDatabaseOverlay<InMemorySubstateDatabase>;
+
+fn read_get(overlay: &Ov, direct: &InMemorySubstateDatabase, replay: &Replay, ops: &mut Vec<String>, pk: &DbPartitionKey, sk: &Vec<u8>, failed: &mut Failed) {
+    let got = overlay.get_raw_substate_by_db_key(pk, &DbSortKey(sk.clone()));
+    let want = direct.get_raw_substate_by_db_key(pk, &DbSortKey(sk.clone()));
+    let want2 = replay.get(pk, sk);
+    if (got != want || got != want2) && failed.is_none() {
+        *failed = Some(("get through the overlay differs from the database with the commits applied".into(),
+            json!({"pk": pk_coq(pk), "sk": hex(sk), "overlay": got.as_ref().map(|v| hex(v)), "direct": want.as_ref().map(|v| hex(v)), "replay": want2.as_ref().map(|v| hex(v))})));
+    }
+    ops.push(format!("OGet {} {} {}", pk_coq(pk), cb(sk), coq_option(got.map(|v| cb(&v)))));
+}
+fn read_list(overlay: &Ov, direct: &InMemorySubstateDatabase, replay: &Replay, ops: &mut Vec<String>, pk: &DbPartitionKey, cur: &Option<Vec<u8>>, failed: &mut Failed) -> bool {
+    let got = collect_list(overlay, pk, cur);
+    let want = collect_list(direct, pk, cur);
+    let want2 = replay.list(pk, cur);
+    if (got != want || got != want2) && failed.is_none() {
+        *failed = Some(("listing through the overlay differs from the database with the commits applied".into(),
+            json!({"pk": pk_coq(pk), "from": cur.as_ref().map(|k| hex(k)), "overlay": entries_coq(&got), "direct": entries_coq(&want), "replay": entries_coq(&want2)})));
+    }
+    ops.push(format!("OList {} {} {}", pk_coq(pk), cursor_coq(cur), entries_coq(&got)));
+    !got.is_empty()
+}
 
 /// partitions of the root (through the overlay whose staging area is empty) with full listings
-fn dump_root(overlay: &OwnedSubstateDatabaseOverlay<InMemorySubstateDatabase>) -> Dump {
+fn dump_root(overlay: &Ov) -> Dump {
     overlay
         .list_partition_keys()
         .map(|pk| {
@@ -225,7 +433,7 @@ fn dump_root(overlay: &OwnedSubstateDatabaseOverlay<InMemorySubstateDatabase>) -
 fn dump_coq(d: &Dump) -> String {
     coq_list(d.iter().map(|(pk, es)| format!("({}, {})", pk_coq(pk), entries_coq(es))))
 }
-fn check_dump(d: &Dump, direct: &InMemorySubstateDatabase, replay: &Replay, failed: &mut Option<(String, serde_json::Value)>) {
+fn check_dump(d: &Dump, direct: &InMemorySubstateDatabase, replay: &Replay, failed: &mut Failed) {
     let want: Dump = direct.list_partition_keys().map(|pk| { let es = collect_list(direct, &pk, &None); (pk, es) }).collect();
     let want2: Vec<((Vec<u8>, u8), Vec<(Vec<u8>, Vec<u8>)>)> =
         replay.parts.iter().map(|(k, p)| (k.clone(), p.iter().map(|(a, b)| (a.clone(), b.clone())).collect())).collect();
